@@ -10,6 +10,8 @@ THEOREMS = [
     ("EG.props.C17", "C17_close_releases_once"),
     ("EG.props.C17", "C17_mqtt_cap"),
     ("EG.props.C17", "C17_mqtt_released_capacity"),
+    ("EG.props.C17", "C17_mqtt_served_cap"),
+    ("EG.props.C17", "C17_unguarded_delete_exceeds_cap"),
     ("EG.props.C17", "C17_ideal_never_panics"),
     ("EG.props.C17", "C17_resize_reordering"),
     ("EG.props.C17", "C17_refuted_q_newsem_unclamped"),
@@ -97,7 +99,7 @@ def encode(c):
             if not op:
                 continue
             k = op[0]
-            ops.append("OAccept" if k == 0 else "OOffer" if k == 1 else "OOfferErr" if k == 2
+            ops.append("OAccept" if k == 0 else "OOffer" if k == 1 else "OOfferErr" if k == 2 else "OOfferTmp" if k == 5
                        else C("OClose", N(op[1])) if k == 3 else C("OSetMax", Z(op[1])))
         steps = [Rec(l_cur=Z(s["cur"]), l_real=Z(s["real"]), l_wq=_zl(s.get("wq")), l_held=Z(s["held"]),
                      l_open=L([N(x) for x in s.get("open") or []]), l_blocked=Z(s["blocked"]), l_shr=Z(s["shr"]),
@@ -105,16 +107,22 @@ def encode(c):
         return Rec(lc_init=Z(i["init"]), lc_M=Z(i["M"]), lc_ops=L(ops), lc_obs=L(steps), lc_desync=B(o.get("desync")))
     if g == "mq":
         ops = []
-        for op in i.get("ops") or []:
+        steps_raw = o.get("steps") or []
+        for j, op in enumerate(i.get("ops") or []):
             if op[0] == 0:
                 ops.append(C("QStart", Z(op[1])))
             elif op[0] == 1:
                 ops.append(C("QCommit", Z(op[1]), B(op[2] == 1)))
+            elif op[0] == 3:
+                ov = j < len(steps_raw) and bool(steps_raw[j].get("overlap"))
+                ops.append(C("QDel", Z(op[1]), B(ov)))
             else:
                 ops.append(C("QDisc", Z(op[1])))
-        steps = [Rec(q_code=Z(s["code"]), q_clients=L([T(Z(a), Z(b)) for a, b in s.get("clients") or []]))
-                 for s in o.get("steps") or []]
-        return Rec(qc_cap=Z(i["cap"]), qc_ops=L(ops), qc_obs=L(steps), qc_desync=B(o.get("desync")))
+        steps = [Rec(q_code=Z(s["code"]), q_clients=L([T(Z(a), Z(b)) for a, b in s.get("clients") or []]),
+                     q_served=Z(s.get("served", 0)))
+                 for s in steps_raw]
+        return Rec(qc_cap=Z(i["cap"]), qc_ops=L(ops), qc_obs=L(steps), qc_desync=B(o.get("desync")),
+                   qc_alive=Z(o.get("alive", -1)))
     if g == "storm":
         return Rec(st_caps=_zl(i["caps"]), st_max=_zl(o.get("max")), st_accepted=Z(o["accepted"]), st_closed=Z(o["closed"]),
                    st_panics=Z(o["panics"]), st_dropped=Z(o["dropped"]), st_desync=B(o.get("desync")),
